@@ -15,6 +15,9 @@ struct Params {
     workers: usize,
     capture: bool,
     policy: u8,
+    /// one connection accepts a few bytes and then nothing until a later environment event re-opens it:
+    /// 0 none, 1 worker 0's connection, 2 client 0's connection, 3 the capture peer's connection
+    backpressure: u8,
 }
 
 fn request(c: usize, j: usize) -> Vec<Vec<u8>> {
@@ -46,6 +49,12 @@ fn scenario(pr: &Params) -> Verdict {
         e3::make_echo_peer(*conn);
     }
     cap.send(&rc::handshake("PULL", Some(b"CAP")));
+    match pr.backpressure {
+        1 => world::script_wmodes(workers[0].from_lib, &[world::WMode::Budget(7), world::WMode::Open]),
+        2 => world::script_wmodes(clients[0].from_lib, &[world::WMode::Budget(7), world::WMode::Open]),
+        3 => world::script_wmodes(cap.from_lib, &[world::WMode::Budget(7), world::WMode::Open]),
+        _ => {}
+    }
     let frontend = RouterSocket::new();
     let backend = DealerSocket::new();
     let capture = PushSocket::new();
@@ -74,7 +83,7 @@ fn scenario(pr: &Params) -> Verdict {
     let end = world::run(e3::HORIZON);
     let mut v = Verdict::default();
     v.truncated = end != world::RunEnd::Quiescent;
-    let what = format!("proxy(ROUTER, DEALER, capture={}) with {} clients x {} requests and {} echo workers, policy {}", pr.capture, pr.clients, reqs_per_client, pr.workers, pr.policy);
+    let what = format!("proxy(ROUTER, DEALER, capture={}) with {} clients x {} requests and {} echo workers, policy {}{}", pr.capture, pr.clients, reqs_per_client, pr.workers, pr.policy, ["", ", worker 0's connection accepting 7 bytes and then nothing for a while", ", client 0's connection accepting 7 bytes and then nothing for a while", ", the capture peer's connection accepting 7 bytes and then nothing for a while"][pr.backpressure as usize % 4]);
     for p in world::panics() {
         v.violate("panic", format!("{}: {}", what, p));
     }
@@ -224,7 +233,7 @@ fn volume_scenario(n: usize, capture: bool, policy: u8) -> Verdict {
 }
 
 fn pj(p: &Params) -> Value {
-    json!({"clients": p.clients, "workers": p.workers, "capture": p.capture, "policy": p.policy})
+    json!({"clients": p.clients, "workers": p.workers, "capture": p.capture, "policy": p.policy, "backpressure": p.backpressure})
 }
 
 fn pf(v: &Value) -> Option<Params> {
@@ -233,6 +242,7 @@ fn pf(v: &Value) -> Option<Params> {
         workers: v["workers"].as_u64()? as usize,
         capture: v["capture"].as_bool()?,
         policy: v["policy"].as_u64().unwrap_or(0) as u8,
+        backpressure: v["backpressure"].as_u64().unwrap_or(0) as u8,
     })
 }
 
@@ -255,10 +265,19 @@ pub fn run(tier: Tier, replay: Option<String>) -> i32 {
         for workers in 1..=2usize {
             for capture in [false, true] {
                 for policy in 0..3u8 {
-                    let pr = Params { clients, workers, capture, policy };
+                    let pr = Params { clients, workers, capture, policy, backpressure: 0 };
                     let pr2 = pr.clone();
                     let bound = if clients + workers >= 4 { tier.pick(2, 3) } else if clients + workers == 3 { tier.pick(2, 3) } else { tier.pick(3, 4) };
                     jobs.push(e3::job(format!("C15/{}c{}w/cap{}/policy{}", clients, workers, capture, policy), pj(&pr), bound, tier.pick(600_000, 10_000_000), move || scenario(&pr2)));
+                    // the same under back-pressure on one connection (partial writes that complete only later)
+                    for backpressure in 1..=3u8 {
+                        if backpressure == 3 && !capture {
+                            continue;
+                        }
+                        let pr = Params { clients, workers, capture, policy, backpressure };
+                        let pr2 = pr.clone();
+                        jobs.push(e3::job(format!("C15/{}c{}w/cap{}/policy{}/bp{}", clients, workers, capture, policy, backpressure), pj(&pr), tier.pick(1, 2), tier.pick(300_000, 3_000_000), move || scenario(&pr2)));
+                    }
                 }
             }
         }
